@@ -32,7 +32,8 @@ PARTIAL = [
     "threads / the GIL cannot be exhibited by any Gallina model: covered by the purity run only (snapshots before/after every call, clean-process "
     "baselines, adversarial histories, 1..16 threads) - differential testing, not proof",
     "the theorems are about the singledispatch registry/cache of DateTime.unconvert, transcribed by hand from CPython 3.12 functools.py; what "
-    "_unconvert_datetime computes is a parameter fmt with the explicit hypothesis that it ignores self (measured: table over 6 instances x 11 values)",
+    "_unconvert_datetime computes is a parameter fmt; explicit hypothesis: the interpreter rebinds a registered bound method to the calling instance "
+    "(true on CPython 3.11+, measured on every run) or fmt ignores self (measured: table over 6 instances x 11 values)",
     "the atomic steps are the dictionary reads/writes of functools.dispatch/register (GIL granularity); interleavings inside a single dict operation "
     "or in free-threaded builds are not modelled; the interleaved part of the correspondence is a harness re-enactment on the real objects",
     "the convert dispatcher (never registered on after import) and Time's own dispatchers are not modelled; a source tie fails closed if any other "
@@ -231,9 +232,16 @@ def translate():
         raise RuntimeError("Time no longer overrides normalize_to_gmt (it would register on Time.unconvert)")
     if DT.__subclasses__() != [TM]:
         raise RuntimeError("DateTime has subclasses other than Time: %r" % (DT.__subclasses__(),))
-    content = ("(* GENERATED by tools/ofxv/props/c17.py translate() from %s - do not edit.\n"
-               "   reregisters: DateTime.normalize_to_gmt contains the statement\n     %s *)\n"
-               "Definition reregisters : bool := %s.\n" % ("ofxtools/Types.py", REG_LINE, C.cbool(rereg)))
+    # interpreter behaviour the semantics depends on: does <bound method>.__get__(other, cls) bind `other`?
+    class _P:
+        def f(self): return self
+    a, b = _P(), _P()
+    rebinds = a.f.__get__(b, _P)() is b
+    content = ("(* GENERATED by tools/ofxv/props/c17.py translate() - do not edit.\n"
+               "   reregisters: DateTime.normalize_to_gmt (ofxtools/Types.py) contains the statement\n     %s\n"
+               "   method_get_rebinds: on this interpreter (%s) <bound method>.__get__(obj, cls) is bound to obj *)\n"
+               "Definition reregisters : bool := %s.\nDefinition method_get_rebinds : bool := %s.\n"
+               % (REG_LINE, sys.version.split()[0], C.cbool(rereg), C.cbool(rebinds)))
     C.write_if_changed(GEN, content)
     return rereg
 
@@ -256,6 +264,11 @@ def spawn(mode, job, timeout=900):
     if p.returncode != 0:
         raise RuntimeError("worker %s failed (rc %d): %s" % (mode, p.returncode, p.stderr[-2000:]))
     return json.loads(p.stdout)
+
+
+def diffp(a, b):
+    i = next((i for i, (x, y) in enumerate(zip(a, b)) if x != y), min(len(a), len(b)))
+    return "...%s  ==>  ...%s" % (a[max(0, i - 100):i + 120], b[max(0, i - 100):i + 120])
 
 
 class Unenc(Exception):
@@ -429,6 +442,7 @@ class Lib:
         self.docs = mk_docs(repo)
         self.vals, _ = mk_vals()
         self.keep = []
+        self.held = {}
         self.classes = sorted(n for n, c in vars(M).items() if inspect.isclass(c) and issubclass(c, Aggregate))
 
     # ---- deep structural dumps (no addresses, no floats)
@@ -500,7 +514,7 @@ class Lib:
             if first is None: first = o
         after = self.dump_any(x)
         out.append({"k": key, "c": name, "d": digs, "mut": before != after, "ok": first[0] == "ok", "n": reps,
-                    "p": repr(first)[:160], "mutp": "" if before == after else (repr(before)[:300] + " ==> " + repr(after)[:300])})
+                    "p": repr(first)[:160], "mutp": "" if before == after else diffp(repr(before), repr(after))})
 
     # ---- inputs
     def subelems(self, root):
@@ -543,53 +557,83 @@ class Lib:
         r = self.random.Random(sel[0])
         return [i for i in range(n) if i == 0 or r.random() < sel[1]]
 
-    def chk(self, group, sel, reps, out):
-        ET = self.ET
+    def build(self, group):
+        """construct the inputs of a group (fresh objects).  The instance is converted from a SECOND parse so that the
+        tree handed to the tree calls has never been seen by the library's converter."""
         kind, name = group.split(":", 1)
+        b = {}
         if kind == "doc":
-            b = self.docs[name]
-            src = self.io.BytesIO(b)
-            self.checked("parse", src, reps, out, "parse|%s" % group)
+            b["bytes"] = self.docs[name]
             try:
-                t = self.OFXTree(); root = t.parse(self.io.BytesIO(b))
+                root = self.OFXTree().parse(self.io.BytesIO(b["bytes"]))
             except Exception:     # noqa
-                return
-            if root is None: return
-            subs = self.subelems(root)
-            for i in self.pick(len(subs), sel):
-                for c in TREE_CALLS:
-                    self.checked(c, subs[i], reps, out, "%s|%s#%d" % (c, group, i))
-            self.checked("convert", root, reps, out, "convert|%s" % group)
-            try:
-                inst = self.Aggregate.from_etree(root)
-            except Exception:     # noqa
-                return
-            insts = self.subinsts(inst)
-            for i in self.pick(len(insts), sel):
-                for c in INST_CALLS:
-                    self.checked(c, insts[i], reps, out, "%s|%s@%d" % (c, group, i))
-            if type(inst).__name__ == "OFX":
-                self.checked("client_serialize", inst, reps, out, "client_serialize|%s" % group)
-        elif kind == "xml":
-            x = ET.fromstring(XMLS[name])
-            for c in TREE_CALLS:
-                self.checked(c, x, reps, out, "%s|%s" % (c, group))
-        elif kind == "gen":
-            cls = getattr(self.M, name)
-            for full in (False, True):
-                key = "%s|%s:%d" % ("%s", group, full)
+                root = None
+            if root is not None:
+                b["root"], b["subs"] = root, self.subelems(root)
                 try:
-                    a = self.gen_inst(cls, full)
+                    inst = self.Aggregate.from_etree(self.OFXTree().parse(self.io.BytesIO(b["bytes"])))
+                    b["inst"], b["insts"] = inst, self.subinsts(inst)
+                except Exception:     # noqa
+                    pass
+        elif kind == "xml":
+            b["x"] = self.ET.fromstring(XMLS[name])
+        elif kind == "gen":
+            b["gen"] = []
+            for full in (False, True):
+                try:
+                    a = self.gen_inst(getattr(self.M, name), full)
                     o = ("ok", self.dump_inst(a))
                 except Exception as e:      # noqa
                     a, o = None, ("err", type(e).__name__)
+                b["gen"].append((full, a, o))
+        else:
+            raise KeyError(group)
+        return b
+
+    def run_checks(self, group, b, sel, reps, out):
+        kind = group.split(":", 1)[0]
+        if kind == "doc":
+            self.checked("parse", self.io.BytesIO(b["bytes"]), reps, out, "parse|%s" % group)
+            if "root" not in b: return
+            for i in self.pick(len(b["subs"]), sel):
+                for c in TREE_CALLS:
+                    self.checked(c, b["subs"][i], reps, out, "%s|%s#%d" % (c, group, i))
+            self.checked("convert", b["root"], reps, out, "convert|%s" % group)
+            if "inst" not in b: return
+            for i in self.pick(len(b["insts"]), sel):
+                for c in INST_CALLS:
+                    self.checked(c, b["insts"][i], reps, out, "%s|%s@%d" % (c, group, i))
+            if type(b["inst"]).__name__ == "OFX":
+                self.checked("client_serialize", b["inst"], reps, out, "client_serialize|%s" % group)
+        elif kind == "xml":
+            for c in TREE_CALLS:
+                self.checked(c, b["x"], reps, out, "%s|%s" % (c, group))
+        else:
+            for full, a, o in b["gen"]:
+                key = "%s|%s:%d" % ("%s", group, full)
                 out.append({"k": key % "construct", "c": "construct", "d": [hashlib.sha1(repr(o).encode()).hexdigest()[:16]], "mut": False,
                             "ok": a is not None, "n": 1, "p": repr(o)[:160], "mutp": ""})
                 if a is not None:
                     for c in INST_CALLS:
                         self.checked(c, a, reps, out, key % c)
-        else:
-            raise KeyError(group)
+
+    def chk(self, group, sel, reps, out):
+        self.run_checks(group, self.build(group), sel, reps, out)
+
+    def hold(self, group):
+        self.held[group] = self.build(group)
+
+    def chkheld(self, group, sel, reps, out):
+        """the calls on inputs that were constructed earlier and have been lying around while other work went on"""
+        if group not in self.held: self.hold(group)
+        self.run_checks(group, self.held[group], sel, reps, out)
+
+    def do_step(self, st, out):
+        if st[0] == "chk": self.chk(st[1], st[2], st[3], out)
+        elif st[0] == "chkheld": self.chkheld(st[1], st[2], st[3], out)
+        elif st[0] == "hold": self.hold(st[1])
+        elif st[0] == "threads": self.threads(st, out)
+        else: self.act(st[1:])
 
     # ---- adversarial history actions (results ignored)
     def act(self, a):
@@ -636,7 +680,7 @@ class Lib:
             try:
                 barrier.wait(60)
                 for s in jobs[i]:
-                    self.chk(s[1], s[2], s[3], outs[i])
+                    self.do_step(s, outs[i])
             except Exception as e:     # noqa
                 errs.append("worker %d: %r" % (i, e))
 
@@ -677,12 +721,7 @@ def w_script(job):
     out = []
     for n, st in enumerate(job["script"]):
         k0 = len(out)
-        if st[0] == "chk":
-            L.chk(st[1], st[2], st[3], out)
-        elif st[0] == "threads":
-            L.threads(st, out)
-        else:
-            L.act(st[1:])
+        L.do_step(st, out)
         for r in out[k0:]:
             r["step"] = n
     return {"records": out}
@@ -804,10 +843,10 @@ def run_dispatch(rep, cases, rereg, fails, tag):
     if kept[1:]:
         rep.sample({"dispatch_case": kept[1][0], "implementation": {"registry_and_cache_after_each_event": kept[1][1]["snaps"][-1], "outcomes": kept[1][1]["seq"]}})
     bad = C.coq_bad_indices(PROP, "dispatch" + tag, ["Model.Dispatch", "Model.DispatchCases", "Gen.DispatchGen"],
-                            "dcase_ok reregisters tbl", "dcase", items, shard=400, prelude=coq_tbl(tbl))
+                            "dcase_ok reregisters method_get_rebinds tbl", "dcase", items, shard=400, prelude=coq_tbl(tbl))
     for i in bad[:50]:
         if i == 0:
-            rep.disagreements.append({"what": "_unconvert_datetime called directly gives results that depend on the instance (hypothesis fmt_self_irrelevant is false)",
+            rep.disagreements.append({"what": "hypothesis of the theorems is false: this interpreter does not rebind registered bound methods and _unconvert_datetime called directly gives results that depend on the instance",
                                       "table": [t for t in tbl if t[1] in (3, 4, 6, 10)]})
         else:
             rep.disagreements.append({"case": kept[i][0], "implementation": kept[i][1]})
@@ -816,10 +855,13 @@ def run_dispatch(rep, cases, rereg, fails, tag):
 
 def hist_script(rng, groups, gens, nsteps, heavy):
     docs = [g for g in groups if g.startswith("doc:")]
-    s = []
+    held = rng.sample(groups, 5) + rng.sample(gens, 5)
+    s = [["hold", g] for g in held]
     for _ in range(nsteps):
         x = rng.random()
-        if x < 0.22:
+        if x < 0.12:
+            s.append(["chkheld", rng.choice(held), [rng.randrange(10 ** 6), 0.3], rng.choice([1, 1, 2])])
+        elif x < 0.22:
             s.append(["act", "dtconv", rng.random() < 0.5, rng.choice(STRS)[0], rng.random() < 0.5])
         elif x < 0.30:
             s.append(["act", "dtunconv", rng.random() < 0.5, rng.randrange(len(VTY))])
@@ -847,9 +889,15 @@ def hist_script(rng, groups, gens, nsteps, heavy):
 
 def thread_script(rng, groups, gens, n, per):
     pre = [["act", "dtconv", True, STRS[0][0], True]] if rng.random() < 0.5 else []
+    held = rng.sample(groups, min(n, len(groups) // 2)) + rng.sample(gens, n - min(n, len(groups) // 2))     # one held input group per thread
+    rng.shuffle(held)
+    pre += [["hold", g] for g in held]
     jobs = []
-    for _ in range(n):
-        jobs.append([["chk", rng.choice(groups if rng.random() < 0.75 else gens), [rng.randrange(10 ** 6), 0.12], 1] for _ in range(per)])
+    for i in range(n):
+        j = [["chk", rng.choice(groups if rng.random() < 0.75 else gens), [rng.randrange(10 ** 6), 0.12], 1] for _ in range(per)]
+        j.insert(rng.randrange(len(j) + 1), ["chkheld", held[i], [rng.randrange(10 ** 6), 0.3], 1])
+        j.append(["chkheld", held[i], [rng.randrange(10 ** 6), 0.3], 1])
+        jobs.append(j)
     return pre + [["threads", jobs, max(1, min(4, n // 2))]]
 
 
